@@ -4,773 +4,23 @@
 package c16
 
 import (
-	"bytes"
-	"context"
-	"encoding/binary"
-	"fmt"
-	"io"
-	"regexp"
-	"runtime"
-	"sort"
-	"strings"
-	"sync"
 	"testing"
-	"time"
 
-	"github.com/fido-device-onboard/go-fdo/serviceinfo"
 	"pgregory.net/rapid"
 
-	"verif/harness/deploy"
 	"verif/harness/ev"
+	. "verif/harness/siscript"
 )
 
-// ---------------------------------------------------------------------------
-// script (the descriptor)
-// ---------------------------------------------------------------------------
+type (
+	script    = Script
+	devOp     = DevOp
+	ownMsg    = OwnMsg
+	ownRound  = OwnRound
+	modScript = ModScript
+)
 
-// devOp is one action of a device module inside a callback.
-type devOp struct {
-	Yield  bool `json:"y,omitempty"` // call yield()
-	Name   int  `json:"n,omitempty"` // message name index
-	Size   int  `json:"s,omitempty"` // bytes written for the message (≥ 1)
-	Writes int  `json:"w,omitempty"` // number of extra Write calls the bytes are split over
-}
-
-// ownMsg is one service info an owner module sends, with the device module's reaction to it.
-type ownMsg struct {
-	Name  int     `json:"n,omitempty"`
-	Size  int     `json:"s"` // wanted body size (≥ 8: id+length header); reduced to what Producer.Available allows
-	Reply []devOp `json:"reply,omitempty"`
-}
-
-// ownRound is one ProduceInfo call of an owner module.
-type ownRound struct {
-	Msgs       []ownMsg `json:"msgs,omitempty"`
-	Block      bool     `json:"block,omitempty"` // IsMoreServiceInfo
-	YieldReply []devOp  `json:"yield,omitempty"` // what the device module does in Yield after this round
-}
-
-type modScript struct {
-	NameLen      int        `json:"namelen,omitempty"` // extra characters in the module name
-	DeviceHas    bool       `json:"devhas"`
-	Rounds       []ownRound `json:"rounds,omitempty"`
-	DoneWithLast bool       `json:"donewithlast,omitempty"` // report done together with the last round (no replies allowed there)
-}
-
-type script struct {
-	Cfg      int         `json:"cfg"`
-	DevMTU   int         `json:"devmtu"` // device's MaxOwnerServiceInfoSize: bound for messages 69
-	OwnMTU   int         `json:"ownmtu"` // owner's MaxDeviceServiceInfoSize: bound for messages 68 (0: not announced → 1300)
-	Extra    int         `json:"extra"`  // additional device module names (no owner counterpart)
-	ExtraLen int         `json:"extralen"`
-	Optional bool        `json:"optional,omitempty"` // fill the optional devmod fields
-	Mods     []modScript `json:"mods,omitempty"`
-	Sched    int         `json:"sched,omitempty"` // schedule perturbation seed (0: none)
-}
-
-var msgNames = []string{"x", "y", "data", "a-rather-long-message-name"}
-
-var cfgs = []deploy.Config{
-	{Key: "P-256", Enc: "x509", Kex: "ECDH256", Cipher: "A128GCM"},
-	{Key: "P-384", Enc: "x5chain", Kex: "ECDH384", Cipher: "COSEAES256CBC"},
-	{Key: "P-256", Enc: "cose", Kex: "ECDH256", Cipher: "COSEAES128CTR"},
-}
-
-const minMTU = 256
-
-func modName(i int, m modScript) string {
-	return fmt.Sprintf("m%c%s", 'a'+i, strings.Repeat("o", m.NameLen))
-}
-
-func extraName(j, l int) string {
-	s := fmt.Sprintf("x%d", j)
-	if len(s) < l {
-		s += strings.Repeat("e", l-len(s))
-	}
-	return s
-}
-
-func pattern(seed uint32, n int) []byte {
-	b := make([]byte, n)
-	x := seed*2654435761 + 12345
-	for i := range b {
-		x ^= x << 13
-		x ^= x >> 17
-		x ^= x << 5
-		b[i] = byte(x)
-	}
-	return b
-}
-
-// sanitize makes a script sound: sizes in range, no device output in a round that reports done.
-func sanitize(s *script) {
-	clampMTU := func(v int) int {
-		if v < minMTU {
-			return minMTU
-		}
-		if v > 65535 {
-			return 65535
-		}
-		return v
-	}
-	s.DevMTU = clampMTU(s.DevMTU)
-	if s.OwnMTU != 0 {
-		s.OwnMTU = clampMTU(s.OwnMTU)
-	}
-	s.Cfg = ((s.Cfg % len(cfgs)) + len(cfgs)) % len(cfgs)
-	s.Extra = min(max(s.Extra, 0), 200)
-	s.ExtraLen = min(max(s.ExtraLen, 1), 40)
-	if len(s.Mods) > 6 {
-		s.Mods = s.Mods[:6]
-	}
-	fixOps := func(ops []devOp) []devOp {
-		for i := range ops {
-			ops[i].Size = min(max(ops[i].Size, 1), 200000)
-			ops[i].Writes = min(max(ops[i].Writes, 0), 6)
-			ops[i].Name = ((ops[i].Name % len(msgNames)) + len(msgNames)) % len(msgNames)
-		}
-		return ops
-	}
-	for mi := range s.Mods {
-		m := &s.Mods[mi]
-		m.NameLen = min(max(m.NameLen, 0), 30)
-		for ri := range m.Rounds {
-			r := &m.Rounds[ri]
-			for i := range r.Msgs {
-				r.Msgs[i].Size = min(max(r.Msgs[i].Size, 8), 70000)
-				r.Msgs[i].Name = ((r.Msgs[i].Name % len(msgNames)) + len(msgNames)) % len(msgNames)
-				r.Msgs[i].Reply = fixOps(r.Msgs[i].Reply)
-			}
-			r.YieldReply = fixOps(r.YieldReply)
-		}
-		// The device's reactions to a group of rounds linked by IsMoreServiceInfo are
-		// produced only after the group's last message. A module that reports done
-		// expects nothing more, so: the last round never blocks, and when done is
-		// reported together with the last round its whole group has no reactions.
-		if n := len(m.Rounds); n > 0 {
-			m.Rounds[n-1].Block = false
-			if m.DoneWithLast {
-				for ri := n - 1; ri >= 0 && (ri == n-1 || m.Rounds[ri].Block); ri-- {
-					for i := range m.Rounds[ri].Msgs {
-						m.Rounds[ri].Msgs[i].Reply = nil
-					}
-					m.Rounds[ri].YieldReply = nil
-				}
-			}
-		}
-		if len(m.Rounds) == 0 {
-			m.DoneWithLast = false
-		}
-	}
-}
-
-// ---------------------------------------------------------------------------
-// instrumented modules
-// ---------------------------------------------------------------------------
-
-type rec struct {
-	Name string
-	Data []byte
-}
-
-type world struct {
-	s   script
-	mu  sync.Mutex
-	seq []string // global owner-side event order: "H:<mod>" "P:<mod>" "D:<mod>"
-	// counters
-	req68      int
-	doneAt68   int // number of 68 requests seen when the last module reported done (-1: never)
-	sendSeed   uint32
-	problems   []string
-	lcg        uint32
-	replyByID  map[uint32][]devOp
-	roundByID  map[uint32][2]int // id -> (module, round)
-	nextID     uint32
-	ownerMods  []*ownMod
-	deviceMods []*devMod
-}
-
-func (w *world) jitter() {
-	if w.s.Sched == 0 {
-		return
-	}
-	w.mu.Lock()
-	w.lcg = w.lcg*1664525 + 1013904223
-	v := w.lcg >> 16
-	w.mu.Unlock()
-	for i := uint32(0); i < v%4; i++ {
-		runtime.Gosched()
-	}
-	if v%7 == 0 {
-		time.Sleep(time.Duration(v%200) * time.Microsecond)
-	}
-}
-
-// spin busy-waits 0..4 µs between the writes of one message body (streamed output)
-func (w *world) spin() {
-	if w.s.Sched == 0 {
-		return
-	}
-	w.mu.Lock()
-	w.lcg = w.lcg*1664525 + 1013904223
-	v := w.lcg >> 16
-	w.mu.Unlock()
-	d := time.Duration(v%9) * 500 * time.Nanosecond
-	for t0 := time.Now(); time.Since(t0) < d; {
-	}
-}
-
-func (w *world) problem(format string, a ...any) {
-	w.mu.Lock()
-	w.problems = append(w.problems, fmt.Sprintf(format, a...))
-	w.mu.Unlock()
-}
-
-func (w *world) event(e string) {
-	w.mu.Lock()
-	w.seq = append(w.seq, e)
-	w.mu.Unlock()
-}
-
-type ownMod struct {
-	w       *world
-	idx     int
-	name    string
-	sc      modScript
-	mu      sync.Mutex
-	sentAct bool
-	active  *bool
-	round   int
-	pending []ownMsg
-	pendBlk bool
-	inRound bool
-	done    bool
-	Sent    []rec // non-active messages sent
-	Got     []rec // everything handled
-	ids     [][]uint32
-}
-
-func (m *ownMod) HandleInfo(ctx context.Context, name string, body io.Reader) error {
-	m.w.jitter()
-	b, err := io.ReadAll(body)
-	if err != nil {
-		return err
-	}
-	m.mu.Lock()
-	defer m.mu.Unlock()
-	m.w.event("H:" + m.name)
-	if m.done {
-		m.w.problem("owner module %s handled %q after it reported done", m.name, name)
-	}
-	m.Got = append(m.Got, rec{name, b})
-	if name == "active" && m.active == nil {
-		v := bytes.Equal(b, []byte{0xf5})
-		if !v && !bytes.Equal(b, []byte{0xf4}) {
-			m.w.problem("owner module %s: active reply is %x", m.name, b)
-		}
-		m.active = &v
-	}
-	return nil
-}
-
-func (m *ownMod) ProduceInfo(ctx context.Context, p *serviceinfo.Producer) (bool, bool, error) {
-	m.w.jitter()
-	m.mu.Lock()
-	defer m.mu.Unlock()
-	m.w.event("P:" + m.name)
-	if m.done {
-		m.w.problem("owner module %s: ProduceInfo after done", m.name)
-		return false, true, nil
-	}
-	finish := func() (bool, bool, error) {
-		m.done = true
-		m.w.event("D:" + m.name)
-		if m.idx == len(m.w.ownerMods)-1 {
-			m.w.mu.Lock()
-			m.w.doneAt68 = m.w.req68
-			m.w.mu.Unlock()
-		}
-		return false, true, nil
-	}
-	if !m.sentAct {
-		m.sentAct = true
-		return false, false, p.WriteChunk("active", []byte{0xf5})
-	}
-	if m.active == nil {
-		m.w.problem("owner module %s: second ProduceInfo without an active reply from the device", m.name)
-		return finish()
-	}
-	if !*m.active {
-		return finish()
-	}
-	if !m.inRound {
-		if m.round >= len(m.sc.Rounds) {
-			return finish()
-		}
-		m.pending = append([]ownMsg{}, m.sc.Rounds[m.round].Msgs...)
-		m.pendBlk = m.sc.Rounds[m.round].Block
-		m.inRound = true
-	}
-	sentHere := 0
-	for len(m.pending) > 0 {
-		msg := m.pending[0]
-		name := msgNames[msg.Name]
-		avail := p.Available(name) - 3 // the value's own byte-string head (the FSIMs leave the same margin)
-		size := msg.Size
-		if size > avail {
-			if sentHere > 0 {
-				break // continue in the next ProduceInfo with the full MTU
-			}
-			size = avail
-		}
-		if size < 8 {
-			m.w.problem("owner module %s: no room for a message in an empty service info (available %d)", m.name, avail)
-			return false, false, fmt.Errorf("no room")
-		}
-		id := m.ids[m.round][len(m.sc.Rounds[m.round].Msgs)-len(m.pending)]
-		body := make([]byte, 8, size)
-		binary.BigEndian.PutUint32(body, id)
-		binary.BigEndian.PutUint32(body[4:], uint32(size-8))
-		body = append(body, pattern(id, size-8)...)
-		if err := p.WriteChunk(name, body); err != nil {
-			return false, false, err
-		}
-		m.Sent = append(m.Sent, rec{name, body})
-		m.pending = m.pending[1:]
-		sentHere++
-	}
-	if len(m.pending) > 0 {
-		return true, false, nil
-	}
-	m.inRound = false
-	m.round++
-	if m.round == len(m.sc.Rounds) && m.sc.DoneWithLast {
-		return finish()
-	}
-	return m.pendBlk, false, nil
-}
-
-type devMod struct {
-	w        *world
-	idx      int
-	name     string
-	mu       sync.Mutex
-	Trans    []bool
-	Recv     []rec
-	Sent     []rec
-	recvBeforeActive bool
-	lastRound int
-	fresh     bool
-	yields    int
-}
-
-func (d *devMod) Transition(active bool) error {
-	d.mu.Lock()
-	d.Trans = append(d.Trans, active)
-	d.mu.Unlock()
-	return nil
-}
-
-func (d *devMod) runOps(ops []devOp, respond func(string) io.Writer, yield func()) {
-	for _, op := range ops {
-		d.w.jitter()
-		if op.Yield {
-			yield()
-			continue
-		}
-		d.w.mu.Lock()
-		d.w.sendSeed++
-		seed := d.w.sendSeed + 1<<20
-		d.w.mu.Unlock()
-		payload := pattern(seed, op.Size)
-		name := msgNames[op.Name]
-		wr := respond(name)
-		parts := op.Writes + 1
-		rest := payload
-		for i := 0; i < parts; i++ {
-			n := len(rest) / (parts - i)
-			if i == parts-1 {
-				n = len(rest)
-			}
-			if n == 0 && i < parts-1 {
-				continue
-			}
-			if _, err := wr.Write(rest[:n]); err != nil {
-				d.w.problem("device module %s: write of %q failed: %v", d.name, name, err)
-			}
-			rest = rest[n:]
-			d.w.spin()
-		}
-		d.mu.Lock()
-		d.Sent = append(d.Sent, rec{name, payload})
-		d.mu.Unlock()
-	}
-}
-
-func (d *devMod) Receive(ctx context.Context, name string, body io.Reader, respond func(string) io.Writer, yield func()) error {
-	d.w.jitter()
-	b, err := io.ReadAll(body)
-	if err != nil {
-		return err
-	}
-	d.mu.Lock()
-	if len(d.Trans) == 0 || !d.Trans[len(d.Trans)-1] {
-		d.recvBeforeActive = true
-	}
-	d.Recv = append(d.Recv, rec{name, b})
-	d.mu.Unlock()
-	// the body is one or more scripted messages back to back
-	for rest := b; len(rest) >= 8; {
-		id, n := binary.BigEndian.Uint32(rest), int(binary.BigEndian.Uint32(rest[4:]))
-		if 8+n > len(rest) {
-			break
-		}
-		rest = rest[8+n:]
-		d.w.mu.Lock()
-		ops := d.w.replyByID[id]
-		rd, ok := d.w.roundByID[id]
-		d.w.mu.Unlock()
-		if ok && rd[0] == d.idx {
-			d.mu.Lock()
-			d.lastRound, d.fresh = rd[1], true
-			d.mu.Unlock()
-			d.runOps(ops, respond, yield)
-		}
-	}
-	return nil
-}
-
-func (d *devMod) Yield(ctx context.Context, respond func(string) io.Writer, yield func()) error {
-	d.w.jitter()
-	d.mu.Lock()
-	d.yields++
-	fresh, r := d.fresh, d.lastRound
-	d.fresh = false
-	d.mu.Unlock()
-	if fresh && d.idx < len(d.w.s.Mods) && r < len(d.w.s.Mods[d.idx].Rounds) {
-		d.runOps(d.w.s.Mods[d.idx].Rounds[r].YieldReply, respond, yield)
-	}
-	return nil
-}
-
-// merged concatenates consecutive records of equal name ("one stream, or consecutive fragments").
-func merged(rs []rec) []rec {
-	var out []rec
-	for _, r := range rs {
-		if n := len(out); n > 0 && out[n-1].Name == r.Name {
-			out[n-1].Data = append(append([]byte{}, out[n-1].Data...), r.Data...)
-			continue
-		}
-		out = append(out, rec{r.Name, append([]byte{}, r.Data...)})
-	}
-	return out
-}
-
-func diffStreams(want, got []rec) string {
-	w, g := merged(want), merged(got)
-	for i := 0; i < len(w) || i < len(g); i++ {
-		switch {
-		case i >= len(g):
-			return fmt.Sprintf("message #%d %q (%d bytes) and %d later ones never arrived", i, w[i].Name, len(w[i].Data), len(w)-i-1)
-		case i >= len(w):
-			return fmt.Sprintf("unexpected extra message #%d %q (%d bytes)", i, g[i].Name, len(g[i].Data))
-		case w[i].Name != g[i].Name:
-			return fmt.Sprintf("message #%d: sent %q, received %q", i, w[i].Name, g[i].Name)
-		case !bytes.Equal(w[i].Data, g[i].Data):
-			k := 0
-			for k < len(w[i].Data) && k < len(g[i].Data) && w[i].Data[k] == g[i].Data[k] {
-				k++
-			}
-			return fmt.Sprintf("message #%d %q: sent %d bytes, received %d bytes, first difference at offset %d", i, w[i].Name, len(w[i].Data), len(g[i].Data), k)
-		}
-	}
-	return ""
-}
-
-var digits = regexp.MustCompile(`[0-9]+`)
-var hexes = regexp.MustCompile(`[0-9a-f]{8,}`)
-
-func normErr(err error) string {
-	s := err.Error()
-	s = hexes.ReplaceAllString(s, "H")
-	s = digits.ReplaceAllString(s, "N")
-	if len(s) > 110 {
-		s = s[len(s)-110:]
-	}
-	return s
-}
-
-// ---------------------------------------------------------------------------
-// evaluation
-// ---------------------------------------------------------------------------
-
-func eval(s script) ev.Result {
-	sanitize(&s)
-	ctx, cancel := context.WithTimeout(context.Background(), 60*time.Second)
-	defer cancel()
-	cfg := cfgs[s.Cfg]
-	w := &world{s: s, doneAt68: -1, lcg: uint32(s.Sched), replyByID: map[uint32][]devOp{}, roundByID: map[uint32][2]int{}}
-
-	svc := deploy.NewMemService("aio", deploy.KeyOwner1)
-	svc.AutoExtendTo = deploy.OwnerPublic(cfg, deploy.KeyOwner1)
-	svc.OwnerMTU = uint16(s.OwnMTU)
-	dev := deploy.NewDevice(cfg, deploy.KeyDevice)
-	dev.MTU = uint16(s.DevMTU)
-	if s.Optional {
-		dev.Devmod.Serial, dev.Devmod.PathSep, dev.Devmod.Newline, dev.Devmod.Temp, dev.Devmod.Dir, dev.Devmod.ProgEnv, dev.Devmod.MudURL = []byte("sn-0001"), "/", "\n", "/tmp", "/opt/fdo", "bin:py3", "https://mud.example/dev.json"
-	}
-	dev.Modules = map[string]serviceinfo.DeviceModule{}
-	for i, m := range s.Mods {
-		om := &ownMod{w: w, idx: i, name: modName(i, m), sc: m}
-		for ri, r := range m.Rounds {
-			var ids []uint32
-			for _, msg := range r.Msgs {
-				w.nextID++
-				ids = append(ids, w.nextID)
-				w.replyByID[w.nextID] = msg.Reply
-				w.roundByID[w.nextID] = [2]int{i, ri}
-			}
-			om.ids = append(om.ids, ids)
-		}
-		w.ownerMods = append(w.ownerMods, om)
-		dm := &devMod{w: w, idx: i, name: om.name}
-		w.deviceMods = append(w.deviceMods, dm)
-		if m.DeviceHas {
-			dev.Modules[om.name] = dm
-		}
-	}
-	var extras []string
-	for j := 0; j < s.Extra; j++ {
-		n := extraName(j, s.ExtraLen)
-		extras = append(extras, n)
-		dev.Modules[n] = &devMod{w: w, idx: 1000 + j, name: n}
-	}
-	svc.Modules.Factory = func(ctx context.Context) []deploy.NamedModule {
-		var out []deploy.NamedModule
-		for _, om := range w.ownerMods {
-			out = append(out, deploy.NamedModule{Name: om.name, Mod: om})
-		}
-		return out
-	}
-	if err := dev.DI(ctx, deploy.NewLink(svc)); err != nil {
-		return ev.Failf("setup", "DI: %v", err)
-	}
-	link := deploy.NewLink(svc)
-	// whoever announces service info sizes up to 65535 has to let the transport carry them
-	link.MaxContent, svc.Handler.MaxContentLength = 1<<18, 1<<18
-	var types []uint8
-	link.OnRequest = func(ex *deploy.Exchange) *deploy.Action {
-		w.mu.Lock()
-		types = append(types, ex.ReqType)
-		if ex.ReqType == 68 {
-			w.req68++
-		}
-		w.mu.Unlock()
-		return nil
-	}
-	var runErr error
-	if !ev.WithTimeout(40*time.Second, func() { _, runErr = dev.TO2(ctx, link, nil) }) {
-		cancel()
-		return ev.Failf("hang:to2", "TO2 did not return within 40 s (types so far %v)", types)
-	}
-
-	// classification
-	cross, multi := false, len(s.Mods) > 1
-	ownMTU := s.OwnMTU
-	if ownMTU == 0 {
-		ownMTU = 1300
-	}
-	nYield, nOps := 0, 0
-	for _, m := range s.Mods {
-		for _, r := range m.Rounds {
-			for _, ops := range append([][]devOp{r.YieldReply}, func() (o [][]devOp) {
-				for _, mm := range r.Msgs {
-					o = append(o, mm.Reply)
-				}
-				return
-			}()...) {
-				for _, op := range ops {
-					nOps++
-					if op.Yield {
-						nYield++
-					} else if op.Size > ownMTU-40 {
-						cross = true
-					}
-				}
-			}
-		}
-	}
-	cls := fmt.Sprintf("mods=%d cross=%v yield=%v many=%v extra=%s", len(s.Mods), cross, nYield > 0, nOps >= 50, map[bool]string{true: ">0", false: "0"}[s.Extra > 0])
-	res := ev.OK(cls)
-	res.NonTrivial = cross || multi || s.Extra > 0 || nYield > 0 || nOps >= 50
-
-	if runErr != nil {
-		return ev.Failf("to2-failed:"+normErr(runErr), "TO2 failed for a valid script (devMTU %d ownMTU %d, %d owner modules, %d extra device modules): %v", s.DevMTU, s.OwnMTU, len(s.Mods), s.Extra, runErr)
-	}
-	if len(w.problems) > 0 {
-		return ev.Failf("module-contract", "%s", strings.Join(w.problems[:min(3, len(w.problems))], "; "))
-	}
-
-	// devmod and module list
-	calls := svc.Mem.DevmodCalls()
-	if len(calls) == 0 || !calls[len(calls)-1].Complete {
-		return ev.Failf("devmod-incomplete", "TO2 succeeded but the owner never stored a complete devmod (%d SetDevmod calls)", len(calls))
-	}
-	last := calls[len(calls)-1]
-	if fmt.Sprintf("%+v", last.Devmod) != fmt.Sprintf("%+v", dev.Devmod) {
-		return ev.Failf("devmod-fields", "owner stored devmod %+v, device has %+v", last.Devmod, dev.Devmod)
-	}
-	wantMods := []string{"devmod"}
-	for n := range dev.Modules {
-		wantMods = append(wantMods, n)
-	}
-	gotMods := append([]string{}, last.Modules...)
-	sort.Strings(wantMods)
-	sort.Strings(gotMods)
-	if strings.Join(wantMods, ",") != strings.Join(gotMods, ",") {
-		return ev.Failf("devmod-modules", "owner stored %d module names, device has %d; stored %.200q want %.200q", len(gotMods), len(wantMods), gotMods, wantMods)
-	}
-
-	// per module streams
-	for i, om := range w.ownerMods {
-		dm := w.deviceMods[i]
-		if !om.done {
-			return ev.Failf("module-not-run", "TO2 succeeded although owner module %s never reported done", om.name)
-		}
-		if !s.Mods[i].DeviceHas {
-			if len(om.Got) != 1 || om.Got[0].Name != "active" || !bytes.Equal(om.Got[0].Data, []byte{0xf4}) {
-				return ev.Failf("unknown-module", "owner module %s has no device counterpart but received %d messages (first %v)", om.name, len(om.Got), om.Got[:min(1, len(om.Got))])
-			}
-			if len(dm.Recv) != 0 || len(dm.Trans) != 0 {
-				return ev.Failf("unknown-module", "unregistered device module %s got callbacks", om.name)
-			}
-			continue
-		}
-		if len(om.Got) == 0 || om.Got[0].Name != "active" || !bytes.Equal(om.Got[0].Data, []byte{0xf5}) {
-			return ev.Failf("active-reply", "owner module %s: first message from the device is not active=true: %v", om.name, om.Got[:min(1, len(om.Got))])
-		}
-		if dm.recvBeforeActive || len(dm.Trans) != 1 || !dm.Trans[0] {
-			return ev.Failf("activation", "device module %s: transitions %v, receive before activation: %v", om.name, dm.Trans, dm.recvBeforeActive)
-		}
-		if d := diffStreams(om.Sent, dm.Recv); d != "" {
-			return ev.Failf("stream:owner->device", "module %s owner→device: %s", om.name, d)
-		}
-		if d := diffStreams(dm.Sent, om.Got[1:]); d != "" {
-			return ev.Failf("stream:device->owner", "module %s device→owner (ownMTU %d): %s", om.name, s.OwnMTU, d)
-		}
-	}
-	for _, n := range extras {
-		dm := dev.Modules[n].(*devMod)
-		if len(dm.Recv) != 0 || len(dm.Trans) != 0 {
-			return ev.Failf("unknown-module", "device module %s without owner counterpart got callbacks", n)
-		}
-	}
-
-	// owner modules one after another
-	cur := 0
-	for _, e := range w.seq {
-		name := e[2:]
-		for cur < len(w.ownerMods) && w.ownerMods[cur].name != name {
-			cur++
-		}
-		if cur == len(w.ownerMods) {
-			return ev.Failf("module-order", "owner module events out of order: %v", w.seq)
-		}
-	}
-
-	// Done exactly when the last module completed
-	n70, after := 0, false
-	for _, t := range types {
-		if t == 70 {
-			n70++
-			after = true
-		} else if after {
-			return ev.Failf("done-timing", "messages after Done: %v", types)
-		}
-	}
-	if n70 != 1 {
-		return ev.Failf("done-timing", "%d Done messages: %v", n70, types)
-	}
-	if len(w.ownerMods) > 0 && w.doneAt68 != w.req68 {
-		return ev.Failf("done-timing", "the last owner module reported done during DeviceServiceInfo #%d but the device sent %d of them before Done", w.doneAt68, w.req68)
-	}
-	return res
-}
-
-// ---------------------------------------------------------------------------
-// generator
-// ---------------------------------------------------------------------------
-
-func genMTU(t *rapid.T, label string) int {
-	if rapid.IntRange(0, 2).Draw(t, label+"-kind") == 0 {
-		return rapid.IntRange(minMTU, 65535).Draw(t, label)
-	}
-	return rapid.SampledFrom([]int{256, 257, 263, 280, 300, 512, 1024, 1300, 1301, 4096, 16384, 65535}).Draw(t, label)
-}
-
-func genSize(t *rapid.T, mtu int, label string, lo int) int {
-	var v int
-	switch rapid.IntRange(0, 5).Draw(t, label+"-kind") {
-	case 0, 1:
-		v = rapid.IntRange(lo, 40).Draw(t, label)
-	case 2:
-		v = mtu + rapid.IntRange(-45, 8).Draw(t, label)
-	case 3:
-		v = rapid.IntRange(1, 4).Draw(t, label+"-k")*mtu + rapid.IntRange(-60, 8).Draw(t, label)
-	case 4:
-		v = rapid.IntRange(lo, 3000).Draw(t, label)
-	default:
-		v = rapid.IntRange(lo, 70000).Draw(t, label)
-	}
-	return max(v, lo)
-}
-
-func genOps(t *rapid.T, mtu int, label string) []devOp {
-	n := rapid.SampledFrom([]int{0, 0, 1, 1, 1, 2, 3, 5}).Draw(t, label+"-n")
-	var ops []devOp
-	for i := 0; i < n; i++ {
-		if rapid.IntRange(0, 4).Draw(t, label+"-isyield") == 0 {
-			ops = append(ops, devOp{Yield: true})
-			continue
-		}
-		ops = append(ops, devOp{Name: rapid.IntRange(0, len(msgNames)-1).Draw(t, label+"-name"), Size: genSize(t, mtu, label+"-size", 1), Writes: rapid.SampledFrom([]int{0, 0, 1, 3}).Draw(t, label+"-writes")})
-	}
-	return ops
-}
-
-func genScript(t *rapid.T) script {
-	s := script{Cfg: rapid.SampledFrom([]int{0, 0, 0, 0, 1, 2}).Draw(t, "cfg"), DevMTU: genMTU(t, "devmtu"), OwnMTU: genMTU(t, "ownmtu")}
-	if rapid.IntRange(0, 9).Draw(t, "default-ownmtu") == 0 {
-		s.OwnMTU = 0
-	}
-	s.Extra = rapid.SampledFrom([]int{0, 0, 0, 1, 3, 10, 40, 120, 200}).Draw(t, "extra")
-	s.ExtraLen = rapid.IntRange(1, 40).Draw(t, "extralen")
-	s.Optional = rapid.Bool().Draw(t, "optional")
-	if rapid.IntRange(0, 3).Draw(t, "sched-on") == 0 {
-		s.Sched = rapid.IntRange(1, 1<<20).Draw(t, "sched")
-	}
-	own := s.OwnMTU
-	if own == 0 {
-		own = 1300
-	}
-	nm := rapid.SampledFrom([]int{0, 1, 1, 1, 2, 2, 3, 4}).Draw(t, "nmods")
-	for i := 0; i < nm; i++ {
-		m := modScript{DeviceHas: rapid.IntRange(0, 6).Draw(t, "devhas") != 0, DoneWithLast: rapid.Bool().Draw(t, "donewithlast"), NameLen: rapid.SampledFrom([]int{0, 0, 5, 30}).Draw(t, "namelen")}
-		nr := rapid.IntRange(0, 4).Draw(t, "nrounds")
-		for r := 0; r < nr; r++ {
-			rd := ownRound{Block: rapid.IntRange(0, 4).Draw(t, "block") == 0}
-			nmsg := rapid.SampledFrom([]int{0, 1, 1, 2, 3, 6}).Draw(t, "nmsgs")
-			for k := 0; k < nmsg; k++ {
-				rd.Msgs = append(rd.Msgs, ownMsg{Name: rapid.IntRange(0, len(msgNames)-1).Draw(t, "mname"), Size: genSize(t, s.DevMTU, "msize", 8), Reply: genOps(t, own, "reply")})
-			}
-			rd.YieldReply = genOps(t, own, "yreply")
-			m.Rounds = append(m.Rounds, rd)
-		}
-		s.Mods = append(s.Mods, m)
-	}
-	sanitize(&s)
-	return s
-}
+var eval, genScript, sanitize = Eval, GenScript, Sanitize
 
 func TestC16(t *testing.T) {
 	r := ev.Start(t, "C16")
